@@ -237,6 +237,7 @@ func (h *Session) Close() {
 	}
 	h.closed = true
 	close(h.closeChan)
+	verifYield("Close:between")
 	close(h.C)
 	h.Conn.Close()
 	time.Sleep(time.Second) // give time for goroutines to end
@@ -344,10 +345,12 @@ func (h *Session) purge(now time.Time) error {
 		}()
 	}
 
+	verifYield("purge:before-offline")
 	for _, host := range offline {
 		h.makeOffline(host) // will lock/unlock row
 	}
 
+	verifYield("purge:before-delete")
 	// delete after loop because this will change the table
 	if len(purge) > 0 {
 		h.mutex.Lock()
@@ -396,6 +399,7 @@ func (h *Session) Notify(frame Frame) {
 		if !frame.SrcAddr.IP.IsValid() {
 			return
 		}
+		verifYield("Notify:before-lookup")
 		frame.Host = h.findIP(frame.SrcAddr.IP)
 		if frame.Host == nil {
 			return
@@ -426,6 +430,7 @@ func (h *Session) notify(frame Frame) {
 	}
 	frame.Host.MACEntry.Row.RUnlock()
 
+	verifYield("notify:before-offline")
 	// notify previous IP4 is offline
 	for _, v := range offline {
 		h.makeOffline(v)
